@@ -79,7 +79,11 @@ def st4_band_integrated_saturation(
                     - radian_direction[direction_index]
                     + np.pi
                 ) % (2 * np.pi) - np.pi
-                if np.abs(mutual_angle) > integration_width_radians:
+                # The small tolerance ensures that a direction bin that lies exactly on
+                # the edge of the integration window is treated the same regardless of
+                # round-off in the mutual angle (otherwise the result depends on the
+                # absolute orientation of the spectrum).
+                if np.abs(mutual_angle) > integration_width_radians + 1e-9:
                     continue
 
                 integrant += (
